@@ -247,6 +247,101 @@ def gcp_harness(root):
             "pending": lambda ex: len(ex.pending_batch_tasks) + ex.arrayer.num_pending, "running": lambda ex: ex.is_running}
 
 
+def k8s_status_leg(ctx):
+    """Sequential leg (no threads): every terminal status shape of a Kubernetes Job the monitor can be handed - a singleton job
+    (succeeded / failed, pod listed or gone) and an Indexed array job of 3 elements where each index is independently
+    completed / not completed with its pod still listed / not completed with no pod left, under a Complete or Failed condition -
+    is processed by the real K8SExecutor._process_k8s_job_status: every redun job of that Kubernetes Job is reported exactly once."""
+    import itertools
+    import shutil
+
+    from engine import common
+
+    root = os.path.join(common.scratch_dir(), f"c10-k8s-status-{os.getpid()}")
+    shutil.rmtree(root, ignore_errors=True)
+    os.makedirs(root)
+    H = k8s_harness(root)
+    mod = H["mod"]
+    ns = types.SimpleNamespace
+    pods_now: list = []
+
+    def parse_job_error(scratch, job):
+        from redun.scheduler import Traceback
+
+        e = RuntimeError("failed on k8s")
+        return e, Traceback.from_error(e)
+
+    extra = [(mod, "get_k8s_job_pods", lambda core, name: iter(list(pods_now))), (mod, "parse_pod_logs", lambda *a, **k: ["log\n"]),
+             (mod, "parse_job_error", parse_job_error)]
+    todo = list(H["patches"]) + extra
+    saved = [(m, k, getattr(m, k)) for m, k, _v in todo]
+    for m, k, v in todo:
+        setattr(m, k, v)
+    n = 0
+    try:
+        fs = FakeScheduler(root)
+        ex = mod.K8SExecutor("e", scheduler=fs, config=H["conf"])
+        ex.set_scheduler(fs)
+
+        def pod(name, index=None):
+            return ns(metadata=ns(name=f"{name}-pod{index}", namespace="default", creation_timestamp=None,
+                                  annotations={} if index is None else {"batch.kubernetes.io/job-completion-index": str(index)}))
+
+        def cond(kind):
+            return [ns(type=kind, status="True", reason="BackoffLimitExceeded" if kind == "Failed" else None, message="m")]
+
+        shapes = []
+        for kind, has_pod in itertools.product(("Complete", "Failed"), (True, False)):
+            shapes.append(("singleton", kind, (has_pod,)))
+        for kind in ("Complete", "Failed"):
+            for per_index in itertools.product(("completed", "pod", "nopod"), repeat=3):
+                if kind == "Complete" and any(x != "completed" for x in per_index) and not ctx.pick(False, True):
+                    continue  # quick: a Complete array with uncompleted indexes only in the thorough tier
+                shapes.append(("array", kind, per_index))
+        for what, kind, detail in shapes:
+            fs.reported.clear()
+            fs.errors.clear()
+            ex.pending_k8s_jobs.clear()
+            name = f"redun-job-{what}"
+            if what == "singleton":
+                jobs = [FakeJob(0)]
+                ex.pending_k8s_jobs[name] = jobs[0]
+                pods_now[:] = [pod(name)] if detail[0] else []
+                v1 = ns(metadata=ns(name=name, uid="uid", labels={}), spec=ns(parallelism=1, completions=1, completion_mode=None),
+                        status=ns(succeeded=1 if kind == "Complete" else None, failed=None if kind == "Complete" else 1, conditions=cond(kind), completed_indexes=None))
+            else:
+                jobs = [FakeJob(i) for i in range(3)]
+                ex.pending_k8s_jobs[name] = {i: j for i, j in enumerate(jobs)}
+                pods_now[:] = [pod(name, i) for i, x in enumerate(detail) if x != "nopod"]
+                done = [str(i) for i, x in enumerate(detail) if x == "completed"]
+                v1 = ns(metadata=ns(name=name, uid="uid", labels={}), spec=ns(parallelism=3, completions=3, completion_mode="Indexed"),
+                        status=ns(succeeded=len(done), failed=3 - len(done), conditions=cond(kind), completed_indexes=",".join(done) or None))
+            case = {"leg": "k8s-status", "kind": what, "condition": kind, "per_index": list(detail)}
+            n += 1
+            try:
+                ex._process_k8s_job_status(v1)
+            except Exception as e:  # noqa: BLE001
+                ctx.violation(f"k8s-status:{what}:processing-raises:{type(e).__name__}", case, f"{case}: {e!r}")
+                continue
+            from collections import Counter
+
+            cnt = Counter(jid for _st, jid in fs.reported)
+            lost = [j.id for j in jobs if cnt[j.id] == 0]
+            twice = [j.id for j in jobs if cnt[j.id] > 1]
+            if lost or twice:
+                why = "+".join(sorted({detail[int(j[3:])] if what == "array" else ("pod" if detail[0] else "nopod") for j in lost + twice}))
+                ctx.violation(f"k8s-status:{what}:{'job-never-reported' if lost else 'job-reported-twice'}:condition={kind}:{why}", case,
+                              f"{case}: after processing the terminal Kubernetes Job, reports {fs.reported}; never reported {lost}, reported twice {twice}; "
+                              f"still pending {dict(ex.pending_k8s_jobs)}")
+            elif name in ex.pending_k8s_jobs:
+                ctx.violation(f"k8s-status:{what}:left-pending:condition={kind}", case, f"{case}: all jobs reported but {name} is still in pending_k8s_jobs")
+    finally:
+        for m, k, v in saved:
+            setattr(m, k, v)
+        shutil.rmtree(root, ignore_errors=True)
+    return n
+
+
 HARNESSES = {"docker": docker_harness, "gcp_batch": gcp_harness, "k8s": k8s_harness, "aws_glue": glue_harness, "aws_batch": batch_harness, "aws_batch+arrayer": lambda root: batch_harness(root, arrayer=True)}
 
 
@@ -378,6 +473,7 @@ def run(ctx):
     res = ctx.pmap(explore_case, ctx.rotate(work), chunksize=2)
     check_harness_errors(res)
     ctx.add_results(res)
+    n_k8s_shapes = k8s_status_leg(ctx)
     states = set()
     outcomes = set()
     for r in res:
@@ -387,16 +483,31 @@ def run(ctx):
     return {"coverage": {
         "states": len(states), "transitions": sum(r["ntrans"] for r in res), "traces_validated_against_impl": execs,
         "preemption_bound": bound, "preemption_bound_per_case": [[c["executor"], c["jobs"], c["pause"], b] for c, b in case_bounds], "executors": sorted(HARNESSES), "distinct_outcomes": len(outcomes),
-        "max_scheduling_points": max(r["stats"]["max_points"] for r in res), "exhaustive": True,
+        "max_scheduling_points": max(r["stats"]["max_points"] for r in res), "k8s_terminal_status_shapes": n_k8s_shapes, "exhaustive": True,
         "rule": "for each executor harness (Docker; AWS Batch with and without the job arrayer's own thread) a scheduler thread submits 2 (thorough: also 3) "
         "jobs, going back to its loop for `pause` turns in between, while the executor's real _start/_monitor/stop/_submit code runs in real monitor "
         "threads; every schedule within the per-case preemption bound (see preemption_bound_per_case) at instruction-level points; the "
         "container / Batch layer is a fake that reports every job it is asked about as succeeded; oracle: when the monitor thread has ended, every "
-        "submitted job was reported exactly once, no monitor error, no deadlock",
+        "submitted job was reported exactly once, no monitor error, no deadlock. Sequential leg: every terminal status shape of a Kubernetes Job "
+        "(singleton succeeded/failed with or without a listed pod; Indexed array of 3 where each index is completed / uncompleted with pod / uncompleted "
+        "without pod, under a Complete (thorough) or Failed condition) handed to the real K8SExecutor._process_k8s_job_status: every redun job reported exactly once",
         "samples": cases[:2],
     }, "assumptions": ["GIL bytecode interleaving; cloud/container APIs are in-process fakes; only executors listed in 'executors' are harnessed"]}
 
 
 def replay(ctx, case):
+    if case.get("leg") == "k8s-status":
+        found = []
+
+        class _C:
+            def pick(self, a, b):
+                return b
+
+            def violation(self, sig, c, d):
+                if c == case:
+                    found.append((sig, d))
+
+        k8s_status_leg(_C())
+        return found
     _, res = scenario(case["case"], case["choices"])
     return [(s, d) for s, d in res["viol"]]
